@@ -78,7 +78,7 @@ pub fn pool() -> Vec<Value> {
         m3.insert("a".into(), json!(2));
         m3.insert("b".into(), json!(1));
         for j in [
-            json!(null), json!(true), json!(0), json!(1), json!(1.0), json!(-0.0), json!(1.5), json!("1"), json!(""), json!("a"), json!([]), json!([1]), json!([1, 2]), json!([2, 1]), json!({}),
+            json!(null), json!(true), json!(0), json!(1), json!(1.0), json!(-0.0), json!(0.0), json!([0.0]), json!([-0.0]), json!({"z": 0.0}), json!({"z": -0.0}), json!(1.5), json!("1"), json!(""), json!("a"), json!([]), json!([1]), json!([1, 2]), json!([2, 1]), json!({}),
             serde_json::Value::Object(m1), serde_json::Value::Object(m2), serde_json::Value::Object(m3), json!({"a": [1, {"b": null}]}),
         ] {
             p.push(j.into());
